@@ -185,3 +185,30 @@ def dut_net(kind: str, up: int, down: int) -> Dict[str, Any]:
                 n.update(dur)
         return {"cfg": cfg, "dut": "router_1", "peer": "pc_a", "dut_ip": "192.168.0.1", "far_ip": "192.168.2.2", "peer_ip": "192.168.0.2"}
     raise ValueError(kind)
+
+
+def proxy_agent(action_map: Dict[int, Dict[str, Any]], masking: bool = True, flatten: bool = False, ref: str = "defender",
+                components: Optional[List[Dict[str, Any]]] = None, rewards: Optional[List[Dict[str, Any]]] = None) -> Dict[str, Any]:
+    """A proxy (RL) agent definition with the given action map."""
+    return {
+        "ref": ref,
+        "team": "BLUE",
+        "type": "proxy-agent",
+        "observation_space": {
+            "type": "custom",
+            "options": {"components": components if components is not None else [{"type": "none", "label": "ICS", "options": {}}]},
+        },
+        "action_space": {"action_map": action_map},
+        "reward_function": {"reward_components": rewards if rewards is not None else [{"type": "dummy"}]},
+        "agent_settings": {"flatten_obs": flatten, "action_masking": masking},
+    }
+
+
+def action_map_from(instances) -> Dict[int, Dict[str, Any]]:
+    """{0: do-nothing, 1..: the given (action, options, ...) instances} in action-map format."""
+    m = {0: {"action": "do-nothing", "options": {}}}
+    for (a, o, *_rest) in instances:
+        if a == "do-nothing":
+            continue
+        m[len(m)] = {"action": a, "options": copy.deepcopy(o)}
+    return m
